@@ -92,6 +92,10 @@ namespace pika::detail {
         {
             old_state = expected;
 
+            // Another request_stop may have run to completion in the meantime (stop requested,
+            // lock released again): it was the one that requested the stop.
+            if (stop_requested(old_state)) return false;
+
             for (std::size_t k = 0; is_locked(old_state); ++k)
             {
                 pika::execution::this_thread::detail::yield_k(
